@@ -1,6 +1,7 @@
 import Hive.Proofs.KVRefine
 import Hive.Proofs.KVCopy
 import Hive.Proofs.KVTrace
+import Hive.Proofs.KVFault
 import Hive.Gen.C04_Calls
 import Hive.Gen.C04_Skel
 /-!
@@ -324,13 +325,19 @@ layers with any filter, with or without callback).  A forwarded call (`trFwd`: r
 `WithRealm`, `Batched`, batch `Set`/`Delete`/`Cancel`) and a mutator (`trMut`: `Set`, `Delete`, `DeletePrefix`,
 `Clear`, batch `Commit`) produce: first the callbacks of the debug layers (`cbs`, outermost first), then the call
 itself on the wrapped store — exactly once, with the caller's arguments — and then, for a mutator that returned
-nil, exactly one `Flush()` per `flushkv` layer, and none when it failed.  Methods without a command constant
-(`none`) produce no callback at all. -/
-theorem C04_wrapper_trace (ws : List TWrap) (c : Option (Cmd × List Bytes)) (call : Call) (ok : Bool) :
+nil, exactly one `Flush()` per `flushkv` layer, and none when the store refused it (armed fault or not).  With a
+failing `Flush` (`trMut true`) the innermost `flushkv` layer flushes once, and — its caller seeing an error — no
+layer above it flushes; the call returns nil iff there is no `flushkv` layer.  Methods without a command
+constant (`none`) produce no callback at all. -/
+theorem C04_wrapper_trace (ws : List TWrap) (c : Option (Cmd × List Bytes)) (call : Call) (ok fe : Bool) :
     trFwd c call ws = cbs c ws ++ [.call call] ∧
-    trMut c call ok ws = cbs c ws ++ .call call :: List.replicate (if ok then flushLayers ws else 0) (.call .flush) ∧
+    trMut false c call ok ws =
+      (cbs c ws ++ .call call :: List.replicate (if ok then flushLayers ws else 0) (.call .flush), ok) ∧
+    trMut fe c call false ws = (cbs c ws ++ [.call call], false) ∧
+    trMut true c call true ws =
+      (cbs c ws ++ .call call :: (if flushLayers ws == 0 then [] else [.call .flush]), flushLayers ws == 0) ∧
     cbs none ws = [] :=
-  ⟨trFwd_eq c call ws, trMut_eq c call ok ws, cbs_none ws⟩
+  ⟨trFwd_eq c call ws, trMut_eq c call ok ws, trMut_refused fe c call ws, trMut_fault c call ws, cbs_none ws⟩
 
 /-- **Which callbacks happen**: a request with command constant `c` and arguments `a` reaches the callback of
 exactly those debug layers that have one and whose filter has the bit of `c` (`bitmask.HasBits`), with `c` and
@@ -341,10 +348,10 @@ theorem C04_debug_reports (c : Cmd) (a : List Bytes) (ws : List TWrap) (e : Ev) 
     (∀ c' : Cmd, (newFilter [] &&& c'.bit) ≠ 0) ∧ (∀ c' : Cmd, (newFilter [0] &&& c'.bit) = 0) := by
   refine ⟨mem_cbs c a ws e, ?_, ?_⟩ <;> intro c' <;> cases c' <;> decide
 
-/-- **flushkv flushes after every mutation that took effect** (request level): through a view whose stack is `ws`,
-`Set` / `Delete` / `DeletePrefix` / `Clear` reach the wrapped store once, with the caller's arguments, followed by
-one `Flush` per `flushkv` layer iff the store is open; a batch `Commit` likewise. -/
-theorem C04_flush_follows_mutation (t : TTab) (s : St) (v b : Nat) (ws wb : List TWrap) (bt : Batch)
+/-- **flushkv flushes after every mutation that took effect** (request level, no fault armed): through a view whose
+stack is `ws`, `Set` / `Delete` / `DeletePrefix` / `Clear` reach the wrapped store once, with the caller's arguments,
+followed by one `Flush` per `flushkv` layer iff the store is open; a batch `Commit` likewise. -/
+theorem C04_flush_follows_mutation (t : TTab) (s : St) (v b : Nat) (ws wb : List TWrap) (bt : Batch) (hf : t.fault = false)
     (hv : t.views.lookup v = some ws) (hb : t.batches.lookup b = some wb) (hbm : s.batches.lookup b = some bt)
     (k x p : Bytes) (final : Bool) :
     let fl := fun (w : List TWrap) => List.replicate (if s.db.closed then 0 else flushLayers w) (Ev.call .flush)
@@ -353,7 +360,46 @@ theorem C04_flush_follows_mutation (t : TTab) (s : St) (v b : Nat) (ws wb : List
     traceOp t s [] (.delp v p) = cbs (some (.deletePrefix, [p])) ws ++ .call (.deletePrefix p) :: fl ws ∧
     traceOp t s [] (.clear v) = cbs (some (.clear, [])) ws ++ .call .clear :: fl ws ∧
     traceOp t s [] (.commit b final) = .call .bCommit :: fl wb := by
-  cases hc : s.db.closed <;> simp [traceOp, hv, hb, hbm, trMut_eq, cbs_none, hc]
+  cases hc : s.db.closed <;> simp [traceOp, hv, hb, hbm, hf, trMut_eq, cbs_none, hc]
+
+/-- **The error paths: without a fault they are the model.**  `stepF` / `pstepF` (`Hive/Model/KVFault.lean`) are
+the model with a switch that makes a `Flush()` reaching the store below the wrappers fail with an error other
+than ErrStoreClosed; this is what the driver executes.  Switched off they are `step` / `pstep`, so every
+theorem above is about the driver's model as long as no fault is armed. -/
+theorem C04_fault_free_is_model (s : St) (op : Op) (p : Pair) (pop : POp) :
+    stepF false s op = step s op ∧ pstepF false false p pop = pstep p pop :=
+  ⟨stepF_false s op, pstepF_false p pop⟩
+
+/-- **A failing Flush surfaces, and the mutation has happened** (`flushkv`: "return the error of the wrapped call,
+else the error of Flush unless it is ErrStoreClosed").  With the fault armed, through any wrapper stack: `Flush`
+answers the injected error on an open store and ErrStoreClosed on a closed one; each of the five mutators
+changes the store exactly as on the bare view, and answers the injected error iff it succeeded and the stack
+has a `flushkv` layer (a closed store still answers ErrStoreClosed: the mutation fails first, nothing is flushed). -/
+theorem C04_flush_error_surfaces (ws : List Wrap) (s : Store) (r k v p : Bytes) (sets : AList) (dels : List Bytes) :
+    let ans := fun (o : Out) => if o = .ok ∧ hasFlush ws = true then Out.notfound else o
+    vFlushF true ws s = (if s.closed then .closed else .notfound) ∧
+    vMutF true (dbSet r k v) ws s = ((dbSet r k v s).1, ans (dbSet r k v s).2) ∧
+    vMutF true (dbDelete r k) ws s = ((dbDelete r k s).1, ans (dbDelete r k s).2) ∧
+    vMutF true (dbDeletePrefix r p) ws s = ((dbDeletePrefix r p s).1, ans (dbDeletePrefix r p s).2) ∧
+    vMutF true (dbClear r) ws s = ((dbClear r s).1, ans (dbClear r s).2) ∧
+    vMutF true (dbCommit r sets dels) ws s = ((dbCommit r sets dels s).1, ans (dbCommit r sets dels s).2) :=
+  ⟨vFlushF_true ws s, vMutF_true (flushSafe_set r k v) ws s, vMutF_true (flushSafe_delete r k) ws s,
+    vMutF_true (flushSafe_deletePrefix r p) ws s, vMutF_true (flushSafe_clear r) ws s,
+    vMutF_true (flushSafe_commit r sets dels) ws s⟩
+
+/-- **Copy / CopyBatched stop at the first error** (`innerErr`): when the target's `Flush` fails and the target
+view is a `flushkv` stack on an open store, `Copy` writes exactly the first entry of the source and returns the
+error, `CopyBatched` commits exactly its first batch and returns the error; nothing after it is written. -/
+theorem C04_copy_stops_at_first_error (ws : List Wrap) (hws : hasFlush ws = true) (s : Store) (ho : s.closed = false)
+    (realm : Bytes) (e : Entry) (rest : List Entry) (c : List Entry) (cs : List (List Entry)) :
+    copySetsF true ws realm (e :: rest) s = ((dbSet realm e.1 e.2 s).1, .notfound) ∧
+    copyCommitsF true ws realm (c :: cs) s = ((dbCommit realm c [] s).1, .notfound) := by
+  constructor
+  · simp [copySetsF, vMutF_true (flushSafe_set realm e.1 e.2), hws, dbSet, ho]
+  · simp [copyCommitsF, vMutF_true (flushSafe_commit realm c []), hws, dbCommit, ho]
+
+/-- The hypotheses of `C04_copy_stops_at_first_error` are satisfiable. -/
+example : hasFlush [.debug, .flush] = true ∧ (init.db).closed = false := by decide
 
 /-- **The configured stacks are the model's stacks, along every history**: the handle tables the traces are
 computed from (`TTab`, which remember how each `debug.New` was configured) agree with the wrapper stacks of the
@@ -373,8 +419,10 @@ example : ∀ e ∈ [((Op.wrap 1 0 .flush), TWrap.flush), (.wrap 2 1 .debug, .de
   simp only [List.mem_cons, List.mem_nil_iff, or_false] at he
   rcases he with rfl | rfl | rfl <;> simp_all [TWrap.erase]
 
-example : trMut (some (.set, [[1], [2]])) (.set [1] [2]) true [.flush, .debug 17 true, .flush, .debug 255 false] =
-    [.cb 17 .set [[1], [2]], .call (.set [1] [2]), .call .flush, .call .flush] ∧
+example : trMut false (some (.set, [[1], [2]])) (.set [1] [2]) true [.flush, .debug 17 true, .flush, .debug 255 false] =
+    ([.cb 17 .set [[1], [2]], .call (.set [1] [2]), .call .flush, .call .flush], true) ∧
+    trMut true (some (.set, [[1], [2]])) (.set [1] [2]) true [.flush, .debug 17 true, .flush, .debug 255 false] =
+    ([.cb 17 .set [[1], [2]], .call (.set [1] [2]), .call .flush], false) ∧
     trFwd (some (.get, [[1]])) (.get [1]) [.flush, .debug 17 true, .flush, .debug 255 false] = [.call (.get [1])] := by
   decide
 
